@@ -19,7 +19,7 @@ pub fn checks() -> Vec<Check> {
         id: "C51",
         title: "Rendezvous registrations obey TTL, limits and refresh semantics",
         level: Level::Exploration,
-        rule: "A real rendezvous::server::Behaviour (min_ttl 1..5 s, max_ttl 10..120 s, max registrations per peer 1..3, total 2..6) serves 2..4 scripted clients. Seeded sequences of REGISTER (namespaces a/b/c, TTL below/inside/above the range or absent, every registration carries a signed peer record whose address encodes a generation number), UNREGISTER, DISCOVER (namespace or all, optional limit, with or without a cookie returned earlier) time steps (virtual clock drives expiry) and connection resets with re-dial (fault transport_reset). A reference map is folded from the server's answers. Violations: OK for a TTL outside [min_ttl,max_ttl]; more registrations per peer or in total than configured after an accepted REGISTER; a refresh of an existing (peer, namespace) refused although its TTL is valid; DISCOVER returning a registration that the model has expired for more than a second, removed, or superseded by a newer generation; a cookie chain returning the same registration generation twice",
+        rule: "A real rendezvous::server::Behaviour (min_ttl 1..5 s, max_ttl 10..120 s, max registrations per peer 1..3, total 2..6) serves 2..4 scripted clients. Seeded sequences of REGISTER (namespaces a/b/c, TTL below/inside/above the range or absent, every registration carries a signed peer record whose address encodes a generation number), UNREGISTER, DISCOVER (namespace or all, optional limit, with or without a cookie returned earlier) time steps (virtual clock drives expiry) and connection resets with re-dial (fault transport_reset). A reference map is folded from the server's answers. Violations: OK for a TTL outside [min_ttl,max_ttl]; more registrations per peer or in total than configured after an accepted REGISTER; a refresh of an existing (peer, namespace) refused although its TTL is valid; DISCOVER returning a registration that the model has expired for more than a second, removed, or superseded by a newer generation; a cookie chain returning the same registration generation twice; a plain DISCOVER (no cookie, no limit) omitting a registration that is live for more than another second (a refresh lives until its new deadline)",
         assumptions: &["security/muxing stubbed (E2 stack)", "the model follows the server's accept/refuse answers (only the clauses of the property are judged, not whether every admissible request is accepted)"],
         real: &["rendezvous server Behaviour, its request-response handler and codec, signed peer record validation"],
         stub: &["transport/security/muxer -> SimTransport/SimMuxer", "rendezvous clients -> scripted frames", "clock -> virtual"],
@@ -91,7 +91,7 @@ struct Reg {
 #[derive(Debug)]
 enum Pending {
     Register { client: usize, ns: String, ttl: Option<u64>, gen: u16, at: Duration },
-    Discover { ns: Option<String>, cookie: Option<Vec<u8>> },
+    Discover { ns: Option<String>, cookie: Option<Vec<u8>>, limit: Option<u64> },
 }
 
 fn rendezvous_server() -> SimResult {
@@ -171,7 +171,7 @@ fn rendezvous_server() -> SimResult {
                     let cookie = if !cookies.is_empty() && choose(2) == 0 { Some(cookies[choose(cookies.len())].clone()) } else { None };
                     tag += 1;
                     clients[c].node.with(|b| b.open(speer, None, OpenReq { tag, proto: PROTO.into(), send: vec![discover(ns.as_deref(), limit, cookie.as_deref())], read: 1, after: After::Close }));
-                    pending.insert(tag, (c, Pending::Discover { ns, cookie }));
+                    pending.insert(tag, (c, Pending::Discover { ns, cookie, limit }));
                 }
                 8 => {
                     // fault: the client's connection is reset; it dials again (registrations are per peer, not per connection)
@@ -231,7 +231,7 @@ fn rendezvous_server() -> SimResult {
                         }
                     }
                 }
-                Pending::Discover { ns, cookie } => {
+                Pending::Discover { ns, cookie, limit } => {
                     let Some(dr) = pb_get_bytes(&f, 6).and_then(|b| pb_parse(&b)) else { continue };
                     if pb_get_varint(&dr, 3).unwrap_or(0) != 0 {
                         continue;
@@ -255,6 +255,15 @@ fn rendezvous_server() -> SimResult {
                             }
                         }
                         ensure!(returned.insert(g), "C51/discover-duplicate", "one DISCOVER answer lists generation {g} twice");
+                    }
+                    // a plain discovery (no cookie, no limit) lists every live registration of the namespace, in particular a
+                    // refreshed one until its *new* deadline
+                    if cookie.is_none() && limit.is_none() {
+                        for ((peer, mns), m) in &model {
+                            if ns.as_ref().map(|n| n == mns).unwrap_or(true) && m.at + Duration::from_secs(m.ttl) > now + Duration::from_secs(1) {
+                                ensure!(returned.contains(&m.gen), "C51/discover-missing", "DISCOVER {ns:?} at {now:?} does not list ({peer}, {mns}) generation {} registered at {:?} with ttl {}s", m.gen, m.at, m.ttl);
+                            }
+                        }
                     }
                     let before = cookie.as_ref().and_then(|c| cookie_seen.get(c)).cloned().unwrap_or_default();
                     if let Some(dup) = returned.intersection(&before).next() {
